@@ -314,7 +314,10 @@ impl GlobalCollector {
         }
 
         for DropCollect { collect_id } in self.drop_collects.drain(..) {
-            self.active_collectors.remove(&collect_id);
+            // Without `cancelable`, spans are reported as they arrive and `cancel()` is a no-op.
+            if self.config.cancelable {
+                self.active_collectors.remove(&collect_id);
+            }
         }
 
         for SubmitSpans {
